@@ -8,7 +8,7 @@ harness/C04_parse.py into the AST type of C04.Model and Coq checks codegen = cap
 Tie (b): the outputs, on ExactQ values and on LinForm symbolic samples (evaluated at the origin
 and at every basis point, which determines the affine map), with list / generator / callable /
 None memories."""
-import itertools
+import itertools, random
 from fractions import Fraction
 from vlib.framework import Family
 from vlib import coqlit as L
@@ -26,7 +26,16 @@ RULE = ("filters built by ZFilter / LinearFilter from coefficient lists, dicts (
         "random; every filter is called with memory None / list / generator / callable (exact, longer, shorter), "
         "zero in {0, 0.0, 5/3}, input length 0..8 (list or generator), numeric ExactQ samples or LinForm symbolic "
         "samples. Every call contributes the captured program text (program equality) and the outputs. "
-        "Non-trivial = a call that produced >= 3 outputs from a filter with feedback or >= 2 numerator terms.")
+        "Non-trivial = a call that produced >= 3 outputs from a filter with feedback or >= 2 numerator terms. "
+        "Memory KINDS: None, list (exact / longer / shorter), tuple, deque (bounded and not), generator, iterator, "
+        "Stream, thub, endless Stream, itertools.repeat, range, __iter__-only object, function, functools.partial, "
+        "__call__-only object; positional / keyword / defaulted zero; int / bool / float input samples. Sparse "
+        "filters of order 40..64 (program capture). Family hist: HISTORIES in one process - two calls given the same "
+        "memory object (list of exactly the needed size, longer list, deque, tuple, shared iterator), two filters "
+        "alive at once, results consumed alternately, the caller's list changed between the call and the reading, "
+        "equal coefficients of different types (int / float / ExactQ), short then long inputs; every call must equal "
+        "the per-call model on the contents its memory had when the call was made, and the argument objects are "
+        "compared with what the caller put in them after everything was read.")
 EXHAUSTIVE = {"quick": False, "thorough": True}
 trusted_base = [
   "the generated program text is parsed by harness/C04_parse.py (regular grammar, fail-closed: any unexpected line, "
@@ -174,19 +183,101 @@ def _ramp(base, more, less):
   return f
 
 
-def _mem_obj(m):
+ITER_KINDS = ("list", "tuple", "gen", "deque", "dequemax", "iter", "track", "stream", "thub", "cycle", "iteronly")
+CALL_KINDS = ("call", "call_partial", "call_obj")
+
+
+class TrackIter(object):
+  """plain iterator over a list whose position can be inspected (a memory / input shared by two calls)"""
+  def __init__(self, vals):
+    self.vals, self.pos = list(vals), 0
+  def __iter__(self):
+    return self
+  def __next__(self):
+    if self.pos >= len(self.vals):
+      raise StopIteration
+    self.pos += 1
+    return self.vals[self.pos - 1]
+
+
+class IterOnly(object):
+  def __init__(self, vals): self.vals = vals
+  def __iter__(self): return iter(self.vals)
+
+
+class CallOnly(object):
+  def __init__(self, f): self.f = f
+  def __call__(self, n): return self.f(n)
+
+
+def mem_contents(m):
+  """the items an iterable memory argument will deliver, as case values (static description)"""
   kind = m[0]
-  if kind == "none":
-    return None
-  if kind == "list":
-    return [_sample(v, True) for v in m[1]]
-  if kind == "tuple":
-    return tuple(_sample(v, True) for v in m[1])
-  if kind == "gen":
-    return (x for x in [_sample(v, True) for v in m[1]])
-  if kind == "call":
-    return _ramp(_sample(m[1], True), m[2], m[3])
+  if kind in ITER_KINDS:
+    if kind == "cycle":
+      return [m[1][i % len(m[1])] for i in range(80)] if m[1] else []
+    return list(m[1])
+  if kind == "repeat":
+    return [m[1]] * m[2]
+  if kind == "range":
+    return [fr(v) for v in range(m[1], m[2])]
   raise ValueError(kind)
+
+
+class MemBox(object):
+  """one memory argument object; current() = its present contents when they can be inspected"""
+  def __init__(self, m):
+    import collections, functools, itertools
+    import audiolazy
+    self.kind = kind = m[0]
+    self.expected = None
+    if kind == "none":
+      self.obj = None
+    elif kind in ITER_KINDS:
+      vals = [_sample(v, True) for v in m[1]]
+      if kind == "list": self.obj = list(vals)
+      elif kind == "tuple": self.obj = tuple(vals)
+      elif kind == "gen": self.obj = (x for x in vals)
+      elif kind == "deque": self.obj = collections.deque(vals)
+      elif kind == "dequemax": self.obj = collections.deque(vals, maxlen=max(1, len(vals)))
+      elif kind == "iter": self.obj = iter(vals)
+      elif kind == "track": self.obj = TrackIter(vals)
+      elif kind == "stream": self.obj = audiolazy.Stream(vals)
+      elif kind == "thub": self.obj = audiolazy.thub(audiolazy.Stream(vals), 1)
+      elif kind == "cycle": self.obj = audiolazy.Stream(itertools.cycle(vals)) if vals else audiolazy.Stream([])
+      elif kind == "iteronly": self.obj = IterOnly(vals)
+      if kind in ("list", "deque", "dequemax", "tuple"):
+        self.expected = list(vals)
+    elif kind == "repeat":
+      self.obj = itertools.repeat(_sample(m[1], True), m[2])
+    elif kind == "range":
+      self.obj = range(m[1], m[2])
+    elif kind in CALL_KINDS:
+      f = _ramp(_sample(m[1], True), m[2], m[3])
+      self.obj = {"call": f, "call_partial": functools.partial(lambda unused, n: f(n), 0),
+                  "call_obj": CallOnly(f)}[kind]
+    else:
+      raise ValueError(kind)
+
+  def current(self):
+    if self.kind in ("list", "deque", "dequemax", "tuple"):
+      return list(self.obj)
+    if self.kind == "track":
+      return self.obj.vals[self.obj.pos:]
+    return None
+
+  def intact(self):
+    return self.expected is None or list(self.obj) == self.expected
+
+
+def native(v):
+  """the same number as int / bool / float when that is exact (element kinds), else ExactQ"""
+  f = to_frac(v)
+  if f.denominator == 1:
+    return bool(f) if f in (0, 1) else int(f)
+  if f.denominator in (2, 4, 8):
+    return float(f)
+  return v
 
 
 def out_json(v):
@@ -195,68 +286,126 @@ def out_json(v):
   return fr(to_frac(v))
 
 
-def run_call(c):
+def build_filter(c, res):
   import audiolazy
   import audiolazy.lazy_filters as lf
   b = c["build"]
-  res = {"init": None, "runs": []}
-  try:
-    if b["kind"] == "zexpr":
-      flt = zexpr_filter(b["text"])
-      if not isinstance(flt, lf.LinearFilter):
-        flt = lf.ZFilter(flt)
-      res["num_data"] = data_items(flt.numpoly)
-      res["den_data"] = data_items(flt.denpoly)
-    else:
-      cls = getattr(audiolazy, b.get("cls", "ZFilter"))
-      num, den = arg_obj(b["num"]), arg_obj(b["den"])
-      flt = cls(num) if (den is None and b.get("one_arg")) else cls(num, den)
-    for which, k, cf in c.get("tamper", []):
-      (flt.numpoly if which == "num" else flt.denpoly)[int(k)] = coef_obj(cf)
-  except Exception as e:
-    res["init"] = type(e).__name__
-    return res
+  if b["kind"] == "zexpr":
+    flt = zexpr_filter(b["text"])
+    if not isinstance(flt, lf.LinearFilter):
+      flt = lf.ZFilter(flt)
+    res["num_data"] = data_items(flt.numpoly)
+    res["den_data"] = data_items(flt.denpoly)
+  else:
+    cls = getattr(audiolazy, b.get("cls", "ZFilter"))
+    num, den = arg_obj(b["num"]), arg_obj(b["den"])
+    flt = cls(num) if (den is None and b.get("one_arg")) else cls(num, den)
+  for which, k, cf in c.get("tamper", []):
+    (flt.numpoly if which == "num" else flt.denpoly)[int(k)] = coef_obj(cf)
+  return flt
+
+
+def default_sched(subs):
+  return [[op, s, r] for s, c in enumerate(subs) for r in range(len(c["runs"])) for op in ("call", "read")]
+
+
+def execute(subs, sched=None):
+  """Runs a history over several filters: ["call", s, r] / ["pull", s, r, k] / ["read", s, r] /
+  ["mutate", s, r, pos, value] (in-place change of the list / deque given as memory to run (s, r)).
+  Returns one observation per sub-case and whether every argument object kept the contents the caller gave it."""
+  import audiolazy.lazy_filters as lf
+  sched = sched or default_sched(subs)
+  results, filters = [], []
+  for c in subs:
+    res = {"init": None, "runs": [{} for _ in c["runs"]]}
+    try:
+      filters.append(build_filter(c, res))
+    except Exception as e:
+      res["init"] = type(e).__name__
+      res["runs"] = []
+      filters.append(None)
+    results.append(res)
   captured = []
   orig = lf._exec_eval
 
-  def recorder(data, expr):
+  def recorder(data, expr, *args, **kwargs):     # transparent for any further arguments
     captured.append([data, expr])
-    return orig(data, expr)
+    return orig(data, expr, *args, **kwargs)
 
+  boxes, streams, xlists, iters = {}, {}, {}, {}
   lf._exec_eval = recorder
   try:
-    for r in c["runs"]:
-      del captured[:]
-      xs = [_sample(v, True) for v in r["xs"]]
-      seq = (x for x in xs) if r.get("xs_gen") else xs
-      o = {}
-      out = []
-      try:
-        stream = flt(seq, memory=_mem_obj(r["mem"]), zero=_zero_obj(r["zero"]))
-      except Exception as e:
-        o["raise"] = [1, type(e).__name__]
-        stream = None
-      if stream is not None:
+    for op in sched:
+      kind, s, r = op[0], op[1], op[2]
+      flt, c = filters[s], subs[s]
+      if flt is None:
+        continue
+      run, o = c["runs"][r], results[s]["runs"][r]
+      if kind == "call":
+        del captured[:]
+        conv = native if run.get("xkind") == "native" else (lambda v: v)
+        xs = [conv(_sample(v, True)) for v in run["xs"]]
+        xlists[(s, r)] = (xs, list(xs))
+        seq = (x for x in xs) if run.get("xs_gen") else xs
+        share = run.get("mem_share")
+        box = boxes[tuple(share)] if share else MemBox(run["mem"])
+        boxes[(s, r)] = box
+        seen = box.current()
+        if seen is not None and not c.get("sym"):
+          o["mem_seen"] = [fr(to_frac(v)) for v in seen]
+        zero = _zero_obj(run["zero"])
+        o["out"] = []
         try:
-          for v in stream:
-            out.append(out_json(v))
-            if len(out) > len(xs) + 3:
-              break
-          o["out"] = out
+          style = run.get("argstyle", "kw")
+          if style == "pos":
+            streams[(s, r)] = flt(seq, box.obj, zero)
+          elif style == "default_zero":
+            streams[(s, r)] = flt(seq, memory=box.obj)
+          else:
+            streams[(s, r)] = flt(seq, memory=box.obj, zero=zero)
         except Exception as e:
-          o["raise"] = [2 if not out else 3, type(e).__name__]
-          o["partial"] = out
-      if len(captured) == 0:
-        o["prog"] = None
-      elif len(captured) == 1 and captured[0][1] == "gen":
-        o["text"] = captured[0][0]
-        o["prog"] = parse_program(captured[0][0])
-      else:
-        o["prog"] = {"error": "%d programs / expr %r" % (len(captured), captured[0][1])}
-      res["runs"].append(o)
+          o["raise"] = [1, type(e).__name__]
+          del o["out"]
+        if len(captured) == 0:
+          o["prog"] = None
+        elif len(captured) == 1 and captured[0][1] == "gen":
+          o["text"] = captured[0][0]
+          o["prog"] = parse_program(captured[0][0])
+        else:
+          o["prog"] = {"error": "%d programs / expr %r" % (len(captured), captured[0][1])}
+      elif kind in ("pull", "read"):
+        if (s, r) not in streams or "raise" in o or o.get("done"):
+          continue
+        limit = op[3] if kind == "pull" else len(run["xs"]) + 3 - len(o["out"])
+        it_ = iters.setdefault((s, r), None) or iters.__setitem__((s, r), iter(streams[(s, r)])) or iters[(s, r)]
+        try:
+          for _ in range(limit):
+            try:
+              v = next(it_)
+            except StopIteration:
+              o["done"] = True
+              break
+            o["out"].append(out_json(v))
+        except Exception as e:
+          o["raise"] = [2 if not o["out"] else 3, type(e).__name__]
+          o["partial"] = o.pop("out")
+      elif kind == "mutate":
+        box = boxes.get((s, r))
+        if box is not None and box.kind in ("list", "deque", "dequemax") and op[3] < len(box.obj):
+          box.obj[op[3]] = _sample(op[4], True)
+          box.expected[op[3]] = _sample(op[4], True)
   finally:
     lf._exec_eval = orig
-  return res
+  intact = all(b.intact() for b in boxes.values()) and all(xs == keep for xs, keep in xlists.values())
+  for res in results:
+    for o in res["runs"]:
+      o.pop("done", None)
+  return results, intact
+
+
+def run_call(c):
+  results, intact = execute([c])
+  return results[0]
 
 
 # ----------------------------------------------------------------------------- Coq literals
@@ -294,10 +443,10 @@ def _points(c):
     for v in r["xs"]:
       if isinstance(v, str): names.add(v)
     m = r["mem"]
-    if m[0] in ("list", "tuple", "gen"):
+    if m[0] in ITER_KINDS:
       for v in m[1]:
         if isinstance(v, str): names.add(v)
-    elif m[0] == "call" and isinstance(m[1], str):
+    elif m[0] in CALL_KINDS + ("repeat",) and isinstance(m[1], str):
       names.add(m[1])
     if r["zero"][0] == "sym":
       names.add("z")
@@ -341,10 +490,12 @@ def lit_call(c, o):
       m = r["mem"]
       if m[0] == "none":
         mem = "MNone"
-      elif m[0] == "call":
+      elif m[0] in CALL_KINDS:
         mem = "(MCall (ramp %s %s %s))" % (L.qc(_ev(m[1], pt)), L.nat(m[2]), L.nat(m[3]))
+      elif "mem_seen" in ro:      # contents of a (possibly shared / mutated) argument object when the call was made
+        mem = "(MIter %s)" % L.lst([q(v) for v in ro["mem_seen"]])
       else:
-        mem = "(MIter %s)" % L.lst([L.qc(_ev(v, pt)) for v in m[1]])
+        mem = "(MIter %s)" % L.lst([L.qc(_ev(v, pt)) for v in mem_contents(m)])
       zr = r["zero"]
       zero = L.qc(pt.get("z", Fraction(0)) if zr[0] == "sym" else unfr(zr[1]))
       xs = L.lst([L.qc(_ev(v, pt)) for v in r["xs"]])
@@ -377,30 +528,56 @@ def lm_guess(num, den):
   return max(ks) - min(ks)
 
 
-def mk_run(rng, lm, sym=False, allzero=False, nmax=8, idx=0):
+MEM_KINDS = ["none", "list", "list", "gen", "call", "tuple", "deque", "dequemax", "iter", "track", "stream", "thub",
+             "cycle", "iteronly", "call_partial", "call_obj", "repeat", "range"]
+
+
+def mk_mem(rng, lm, sym=False, kind=None, ln=None):
+  mk = kind or rng.choice(MEM_KINDS)
+  if ln is None:
+    ln = rng.choice([lm, lm, lm, lm + 2, max(0, lm - 1), 0, lm + 1])
+  if sym and mk == "range":
+    mk = "list"
+  if mk in ITER_KINDS:
+    if mk == "cycle" and ln == 0:
+      ln = 1
+    if sym:
+      return [mk, ["m%d" % (i + 1) for i in range(ln)]]
+    return [mk, [fr(Fraction(10 * (i + 1) + 1, (i % 3) + 1)) for i in range(ln)]]
+  if mk in CALL_KINDS:
+    more, less = rng.choice([(0, 0), (0, 0), (2, 0), (0, 1), (1, 0), (0, 3)])
+    return [mk, "c" if sym else fr(Fraction(rng.randrange(-5, 6), rng.choice([1, 2, 3]))), more, less]
+  if mk == "repeat":
+    return ["repeat", "m1" if sym else fr(Fraction(rng.randrange(-9, 10), rng.choice([1, 2]))), ln]
+  if mk == "range":
+    a = rng.randrange(-3, 4)
+    return ["range", a, a + ln]
+  return ["none"]
+
+
+def mk_run(rng, lm, sym=False, allzero=False, nmax=8, idx=0, coefq=False):
   n = rng.choice([0, 1, 2, 3, 4, 5, 6, nmax]) if rng.random() < 0.85 else rng.randrange(0, nmax + 1)
   if sym:
     xs = ["x%d" % i for i in range(n)]
   else:
     off = rng.randrange(len(XVALS))
     xs = [fr(XVALS[(off + i) % len(XVALS)] + (i // len(XVALS))) for i in range(n)]
-  mk = rng.choice(["none", "list", "list", "gen", "call", "tuple"])
-  ln = rng.choice([lm, lm, lm, lm + 2, max(0, lm - 1), 0, lm + 1])
-  if mk in ("list", "gen", "tuple"):
-    if sym:
-      mem = [mk, ["m%d" % (i + 1) for i in range(ln)]]
-    else:
-      mem = [mk, [fr(Fraction(10 * (i + 1) + 1, (i % 3) + 1)) for i in range(ln)]]
-  elif mk == "call":
-    more, less = rng.choice([(0, 0), (0, 0), (2, 0), (0, 1), (1, 0), (0, 3)])
-    mem = ["call", "c" if sym else fr(Fraction(rng.randrange(-5, 6), rng.choice([1, 2, 3]))), more, less]
-  else:
-    mem = ["none"]
+  mem = mk_mem(rng, lm, sym)
+  if mem[0] == "range" and not coefq:   # int memory items next to int / float / Fraction coefficients: native arithmetic
+    mem = mk_mem(rng, lm, sym, kind="list")
   if sym and not allzero and rng.random() < 0.7:
     zero = ["sym", None]
   else:
     zero = rng.choice(ZEROS)
-  return {"mem": mem, "zero": zero, "xs": xs, "xs_gen": rng.random() < 0.4}
+  run = {"mem": mem, "zero": zero, "xs": xs, "xs_gen": rng.random() < 0.4}
+  u = rng.random()
+  if u < 0.2:
+    run["argstyle"] = "pos"
+  elif zero[0] == "float" and u < 0.6:
+    run["argstyle"] = "default_zero"      # the explicit value equals the default 0.
+  if coefq and not sym and rng.random() < 0.3:
+    run["xkind"] = "native"               # int / bool / float input samples next to exact coefficients
+  return run
 
 
 def is_allzero(num, den):
@@ -428,7 +605,7 @@ def gen_call(tier, rng):
   # ---- (1) exhaustive small universe
   bs = [list(t) for n in (1, 2, 3) for t in itertools.product(SMALL, repeat=n)]
   as_ = [[a0] + list(t) for a0 in A0S for n in (0, 1, 2) for t in itertools.product(SMALL, repeat=n)]
-  keep = 1000.0 / (len(bs) * len(as_)) if quick else 1.0
+  keep = 800.0 / (len(bs) * len(as_)) if quick else 1.0
   for b in bs:
     for a in as_:
       if keep < 1.0 and rng.random() > keep:
@@ -436,13 +613,13 @@ def gen_call(tier, rng):
       kind = kinds_for(rng)
       num = ["list", [conv(kind, v, rng) for v in b]]
       den = ["list", [conv(kind, v, rng) for v in a]]
-      sym = rng.random() < 0.25
+      sym = rng.random() < 0.15
       az = is_allzero(num, den)
       yield {"build": {"kind": "list", "num": num, "den": den, "cls": rng.choice(["ZFilter", "ZFilter", "LinearFilter"])},
-             "tamper": [], "sym": sym, "runs": [mk_run(rng, lm_guess(num, den), sym, az)],
+             "tamper": [], "sym": sym, "runs": [mk_run(rng, lm_guess(num, den), sym, az, coefq=(kind == "q"))],
              "tags": ["exh", "sym" if sym else "num", "allzero" if az else "lb=%d,la=%d" % (len(b), len(a))]}
   # ---- (2) random sparse dicts, negative / shifted powers, explicit zeros, empty denominators
-  n2 = 500 if quick else 7000
+  n2 = 400 if quick else 7000
   pool = [Fraction(1), Fraction(-1), Fraction(0), Fraction(2), Fraction(-1, 2), Fraction(1, 3), Fraction(-5, 4),
           Fraction(3), Fraction(1, 10), Fraction(-7)]
   for i in range(n2):
@@ -479,14 +656,28 @@ def gen_call(tier, rng):
       for _ in range(rng.randrange(1, 3)):
         tam.append([rng.choice(["num", "den"]), rng.choice([0, 0, 1, 2, -1, 5]), conv(kind, rng.choice(pool), rng)])
       tag += "+set"
-    sym = rng.random() < 0.3 and not tam
+    sym = rng.random() < 0.2 and not tam
     az = is_allzero(num, den) or bool(tam)
     lm = lm_guess(num, den)
     yield {"build": {"kind": "args", "num": num, "den": den, "cls": rng.choice(["ZFilter", "LinearFilter"]),
                      "one_arg": rng.random() < 0.5},
            "tamper": tam, "sym": sym,
-           "runs": [mk_run(rng, lm, sym, az, nmax=8 if lm < 6 else 16) for _ in range(rng.choice([1, 1, 2]))],
+           "runs": [mk_run(rng, lm, sym, az, nmax=8 if lm < 6 else 16, coefq=(kind == "q"))
+                    for _ in range(rng.choice([1, 1, 2]))],
            "tags": [tag, "sym" if sym else "num"]}
+  # ---- (2b) long delay lines: sparse filters of order 40..64 (echo / comb like), memory of exactly the needed size
+  for i in range(40 if quick else 400):
+    D = rng.choice([40, 47, 48, 49, 56, 63, 64])
+    Dn = rng.choice([0, 1, D // 2, D - 1, D, 47, 48, 64])
+    kind = rng.choice(["q", "q", "i"])
+    num = ["dict", [[k, conv(kind, rng.choice(pool[:2] + pool[3:]), rng)] for k in sorted(set([0, Dn // 2, Dn]))]]
+    den = ["dict", [[k, conv(kind, rng.choice(pool[:2] + pool[3:]), rng)] for k in sorted(set([0, rng.choice([1, 2, D]), D]))]]
+    sym = False    # (a symbolic case is compared at one point per variable: 64 memory variables cost too much Coq parsing)
+    r = mk_run(rng, D, sym, False, nmax=rng.choice([3, 6, 10]), coefq=(kind == "q"))
+    r["mem"] = mk_mem(rng, D, sym, kind=rng.choice(["list", "list", "tuple", "deque", "stream", "call", "gen", "none"]),
+                      ln=rng.choice([D, D, D, D + 1, D - 1]))
+    yield {"build": {"kind": "args", "num": num, "den": den, "cls": rng.choice(["ZFilter", "LinearFilter"])},
+           "tamper": [], "sym": sym, "runs": [r], "tags": ["long", "sym" if sym else "num", "order=%d" % D]}
   # ---- (3) the refusals, systematically: assignments that zero a0 / add a negative power
   for num, den, tam in [
       ([1, 1], [1, -1], [["den", 0, 0]]), ([1], [2], [["den", 0, 0]]), ([1, 2], [1, 1, 1], [["den", 0, 0], ["num", -1, 1]]),
@@ -561,6 +752,8 @@ def gen_frac(tier, rng):
     for z in zs:
       r = mk_run(rng, lm_guess(num, den), False, False)
       r["zero"] = z
+      if r.get("argstyle") == "default_zero" and (z[0] != "float" or unfr(z[1]) != 0):
+        del r["argstyle"]
       if len(r["xs"]) < 2:
         r["xs"] = [fr(x) for x in XVALS[:4]]
       runs.append(r)
@@ -615,10 +808,10 @@ def known_frac(c, o):
     m = r["mem"]
     if m[0] == "none":
       mem = [zero] * lm
-    elif m[0] == "call":
+    elif m[0] in CALL_KINDS:
       mem = _ramp(unfr(m[1]), m[2], m[3])(lm)[:lm]
     else:
-      mem = [unfr(v) for v in m[1]][:lm]
+      mem = [unfr(v) for v in mem_contents(m)][:lm]
     mem = [zero] * (lm - len(mem)) + mem
     if got != _ref_filter(num, den, mem, zero, xs):
       return None
@@ -631,9 +824,110 @@ def known_frac(c, o):
   return None
 
 
+# ----------------------------------------------------------------------------- histories (state, aliasing, interleaving)
+def _hist_filter(rng, order, kind="q", variant=0):
+  """a filter with feedback at delay `order` (and sometimes 1), coefficients depending on `variant`"""
+  vals = [Fraction(2), Fraction(-1), Fraction(1, 2), Fraction(-3), Fraction(1), Fraction(3, 2)]
+  pick = lambda i: vals[(i + variant) % len(vals)]
+  nk = sorted(set([0, order // 2, rng.choice([0, 1, order])]))
+  dk = sorted(set([0, rng.choice([1, order]), order])) if order else [0]
+  num = ["dict", [[k, mk_coef(kind, pick(j))] for j, k in enumerate(nk)]]
+  den = ["dict", [[k, mk_coef(kind, pick(j + 2) if k else pick(j + 1) or 1)] for j, k in enumerate(dk)]]
+  return num, den
+
+
+def _interleave(rng, pairs, n):
+  """call everything first, then pull 1-3 items alternately, then read the rest"""
+  sched = [["call", s, r] for s, r in pairs]
+  for _ in range(n):
+    for s, r in pairs:
+      sched.append(["pull", s, r, rng.choice([1, 1, 2, 3])])
+  order = list(pairs)
+  rng.shuffle(order)
+  return sched + [["read", s, r] for s, r in order]
+
+
+def gen_hist(tier, rng):
+  n = 160 if tier == "quick" else 2500
+  orders = [1, 2, 3, 5, 47, 48, 49, 64]
+  for i in range(n):
+    order = rng.choice(orders)
+    shape = rng.choice(["same-list", "same-list", "two-filters", "mutate", "types", "short-long", "share-iter"])
+    xs_n = rng.choice([3, 5, 8])
+    mkx = lambda k, off=0: [fr(XVALS[(off + j) % len(XVALS)] + j // len(XVALS)) for j in range(k)]
+    memvals = [fr(Fraction(7 * (j + 1) % 13 - 6, (j % 2) + 1)) for j in range(order + 2)]
+    zero = rng.choice(ZEROS)
+    mkrun = lambda mem, k=xs_n, off=0, **kw: dict({"mem": mem, "zero": zero, "xs": mkx(k, off), "xs_gen": rng.random() < 0.3}, **kw)
+    if shape == "same-list":        # one list (exactly / more than the needed size) given to two calls of one filter
+      num, den = _hist_filter(rng, order)
+      ln = rng.choice([order, order, order, order + 2])
+      mk = rng.choice(["list", "list", "list", "deque", "tuple", "dequemax"])
+      subs = [{"build": {"kind": "args", "num": num, "den": den, "cls": "ZFilter"}, "tamper": [], "sym": False,
+               "runs": [mkrun([mk, memvals[:ln]]), mkrun([mk, memvals[:ln]], off=2, mem_share=[0, 0])]}]
+      pairs = [(0, 0), (0, 1)]
+      sched = rng.choice([_interleave(rng, pairs, 2),
+                          [["call", 0, 0], ["call", 0, 1], ["read", 0, 0], ["read", 0, 1]],
+                          [["call", 0, 0], ["call", 0, 1], ["read", 0, 1], ["read", 0, 0]],
+                          [["call", 0, 0], ["read", 0, 0], ["call", 0, 1], ["read", 0, 1]]])
+    elif shape == "two-filters":    # two live filters with the same delays and other coefficients, one memory object
+      subs = []
+      for v in (0, 1):
+        num, den = _hist_filter(random.Random(i), order, variant=3 * v)
+        subs.append({"build": {"kind": "args", "num": num, "den": den, "cls": rng.choice(["ZFilter", "LinearFilter"])},
+                     "tamper": [], "sym": False, "runs": [mkrun(["list", memvals[:order]], off=v)]})
+      if rng.random() < 0.6:
+        subs[1]["runs"][0]["mem_share"] = [0, 0]
+      sched = _interleave(rng, [(0, 0), (1, 0)], 3)
+    elif shape == "mutate":         # the caller changes its list after the call, before / while reading the result
+      num, den = _hist_filter(rng, order)
+      subs = [{"build": {"kind": "args", "num": num, "den": den, "cls": "ZFilter"}, "tamper": [], "sym": False,
+               "runs": [mkrun([rng.choice(["list", "list", "deque"]), memvals[:order]])]}]
+      pos = rng.randrange(max(1, order))
+      sched = [["call", 0, 0]] + ([["pull", 0, 0, 1]] if rng.random() < 0.5 else []) + \
+              [["mutate", 0, 0, pos, fr(Fraction(99, 2))], ["read", 0, 0]]
+    elif shape == "types":          # equal coefficient values of different types, one after the other and interleaved
+      subs = []
+      for kind in rng.sample(["i", "f", "q"], 3):
+        num, den = _hist_filter(random.Random(i), min(order, 3), kind=kind)
+        subs.append({"build": {"kind": "args", "num": num, "den": den, "cls": "ZFilter"}, "tamper": [], "sym": False,
+                     "runs": [mkrun(["list", memvals[:min(order, 3)]])]})
+      for j, zr in enumerate(rng.sample(ZEROS[:2] + [["q", fr(0)]], 3)):
+        subs[j]["runs"][0]["zero"] = zr
+      sched = rng.choice([None, _interleave(rng, [(0, 0), (1, 0), (2, 0)], 2)])
+    elif shape == "short-long":     # the same filter on a short then a long input (and back), fresh and shared memories
+      num, den = _hist_filter(rng, order)
+      mk = rng.choice(["list", "none", "call", "stream"])
+      mem = lambda: mk_mem(rng, order, False, kind=mk, ln=order)
+      subs = [{"build": {"kind": "args", "num": num, "den": den, "cls": "ZFilter"}, "tamper": [], "sym": False,
+               "runs": [mkrun(mem(), k=2), mkrun(mem(), k=9, off=1), mkrun(mem(), k=1, off=3)]}]
+      sched = rng.choice([None, _interleave(rng, [(0, 0), (0, 1), (0, 2)], 2)])
+    else:                           # one plain iterator given as memory to two calls: the second gets what is left
+      num, den = _hist_filter(rng, min(order, 5))
+      o5 = min(order, 5)
+      subs = [{"build": {"kind": "args", "num": num, "den": den, "cls": "ZFilter"}, "tamper": [], "sym": False,
+               "runs": [mkrun(["track", memvals[:2] + memvals[:o5 + 2] + memvals[:o5]]),
+                        mkrun(["track", []], off=1, mem_share=[0, 0])]}]
+      sched = rng.choice([None, _interleave(rng, [(0, 0), (0, 1)], 2)])
+    yield {"subs": subs, "sched": sched, "tags": [shape, "order>=48" if order >= 48 else "order<48"]}
+
+
+def run_hist(c):
+  results, intact = execute(c["subs"], c["sched"])
+  return {"subs": results, "intact": intact}
+
+
+def lit_hist(c, o):
+  return "(HC %s %s)" % (L.lst([lit_call(sc, so) for sc, so in zip(c["subs"], o["subs"])]), L.boolean(o["intact"]))
+
+
+def nontrivial_hist(c, o):
+  return sum(len(sc["runs"]) for sc in c["subs"]) >= 2 or any(op[0] == "mutate" for op in (c["sched"] or []))
+
+
 IMPORTS = "From AL Require Import C04.Model C04.Spec C04.Check."
 FAMILIES = {
   "call": Family("call", IMPORTS, "ccase", "corr_call", "holds_call", gen_call, run_call, lit_call, nontrivial_call),
   "frac": Family("frac", IMPORTS, "ccase", "corr_call", "holds_call", gen_frac, run_call, lit_call, nontrivial_call,
                  known_frac),
+  "hist": Family("hist", IMPORTS, "hcase", "corr_hist", "holds_hist", gen_hist, run_hist, lit_hist, nontrivial_hist),
 }
